@@ -18,7 +18,8 @@ RULE = ("payloads = all strings up to a length bound over {a, -, ä, €, \\\\, 
         "ones; x chains {base64offset, wide|base64offset, utf16be|base64offset, utf16|base64offset, base64, "
         "wide|base64, wide, utf16be, utf16}; x contexts prefix length 0..5 x suffix length 0..5 with surrounding bytes "
         "from {0x00, 0xFF, '=', random}; distinct = distinct (chain, payload); non-trivial = payload of >= 2 bytes"
-        "; plus long payloads around 57 / 76 bytes and beyond")
+        "; plus long payloads around 57 / 76 bytes and beyond"
+        "; text that is not in Unicode normal form")
 ASSUMPTIONS = [
     "Python's base64.b64encode / str.encode / bytes.decode are re-implemented in Lean (b64Spec, utf8enc, utf16) and compared on every case",
     "lone surrogates are never generated",
